@@ -246,6 +246,22 @@ func genC11(e *emitter, r *rng, thorough bool) {
 		}
 		e.emit("dec.extend", "ecies.dec "+nhx(d)+" "+hx(append(append([]byte{}, ct...), r.bytes(k)...)))
 	}
+	// bytes INSERTED (1..17, 32, 33 of them) at every structural boundary of a valid message — after the IV, after the
+	// header fields, after the key, between cipher blocks, between the last block and the tag — and removed there
+	for _, pos := range []int{0, 16, 18, 20, 52, 54, 86, 102, len(ct) - 48, len(ct) - 32, len(ct) - 31, len(ct) - 16} {
+		if pos < 0 || pos > len(ct) {
+			continue
+		}
+		for _, k := range []int{1, 2, 8, 15, 16, 17, 32, 33} {
+			x := append(append(append([]byte{}, ct[:pos]...), r.bytes(k)...), ct[pos:]...)
+			e.emit("dec.insert", "ecies.dec "+nhx(d)+" "+hx(x))
+			z := append(append(append([]byte{}, ct[:pos]...), make([]byte, k)...), ct[pos:]...)
+			e.emit("dec.insert-zeros", "ecies.dec "+nhx(d)+" "+hx(z))
+			if pos+k <= len(ct) {
+				e.emit("dec.remove", "ecies.dec "+nhx(d)+" "+hx(append(append([]byte{}, ct[:pos]...), ct[pos+k:]...)))
+			}
+		}
+	}
 	for l := 0; l <= 140; l += 7 {
 		e.emit("dec.short", "ecies.dec "+nhx(d)+" "+hx(r.bytes(l)))
 	}
